@@ -2,6 +2,7 @@
 from __future__ import annotations
 
 import os
+import random
 import pickle
 import struct
 import subprocess
@@ -26,8 +27,9 @@ class Worker:
     """one child interpreter with its own hash seed, heap prelude and
     allocation history"""
 
-    def __init__(self, hashseed, prelude, label=""):
+    def __init__(self, hashseed, prelude, label="", optimize=False):
         global _SETARCH
+        self.optimize = bool(optimize) or bool(os.environ.get("VERIF_FLEET_OPT"))
         if _SETARCH is None:
             _SETARCH = driver.setarch_prefix()
         self.hashseed = hashseed
@@ -51,8 +53,8 @@ class Worker:
                         + " ARGV " + repr([*_SETARCH, driver.PYTHON, WORKER])
                         + " CWD " + driver.VERIF_DIR + "\n")
         self.proc = subprocess.Popen(
-            [*_SETARCH, driver.PYTHON, "-X", "faulthandler", WORKER,
-             str(prelude)],
+            [*_SETARCH, driver.PYTHON, *(["-O"] if self.optimize else []),
+             "-X", "faulthandler", WORKER, str(prelude)],
             stdin=subprocess.PIPE, stdout=subprocess.PIPE,
             stderr=(sys.stderr if os.environ.get("VERIF_FLEET_DEBUG")
                     else subprocess.DEVNULL),
@@ -62,9 +64,17 @@ class Worker:
         self.info = info
         self.ncalls = 0
 
+    @classmethod
+    def from_config(cls, c, label=""):
+        return cls(c["hashseed"], c["prelude"], label,
+                   optimize=c.get("optimize", False))
+
     @property
     def config(self):
-        return {"hashseed": self.hashseed, "prelude": self.prelude}
+        c = {"hashseed": self.hashseed, "prelude": self.prelude}
+        if self.optimize:
+            c["optimize"] = True
+        return c
 
     def _recv(self):
         hdr = self.proc.stdout.read(8)
@@ -150,13 +160,29 @@ class Worker:
         self.kill()
 
 
-def draw_configs(rng, k):
+def draw_configs(rng, k, optimize_p=0.2, optimize_all=None):
     """k interpreter configurations: hash seeds always include 0, 1 and two
-    large values"""
+    large values; some interpreters run with -O (asserts and __debug__ blocks
+    compiled away: pytato's collision checks and part of its diagnostics)"""
     seeds = [0, 1, 4294967295, 2147483647]
     while len(seeds) < k:
         seeds.append(rng.randrange(2, 2 ** 32))
     seeds = seeds[:k] if k <= 4 else seeds
     rng.shuffle(seeds)
-    return [{"hashseed": s, "prelude": rng.randrange(1, 10 ** 6)}
-            for s in seeds[:k]]
+    out = [{"hashseed": s, "prelude": rng.randrange(1, 10 ** 6)}
+           for s in seeds[:k]]
+    # (drawn afterwards, from a derived stream: the seeds and preludes of a
+    # given rng do not depend on optimize_p)
+    orng = random.Random(f"optimize:{out}")
+    if optimize_all is not None:
+        # the interpreters are the ranks of ONE job: -O on all or on none (a
+        # mixed job does not even enter the same collectives: pytato's closing
+        # barrier in find_distributed_partition is under `if __debug__:`)
+        if optimize_all:
+            for c in out:
+                c["optimize"] = True
+        return out
+    for c in out:
+        if orng.random() < optimize_p:
+            c["optimize"] = True
+    return out
